@@ -478,6 +478,10 @@ impl Prop for C18 {
         let stub = Ty::Seq(Body::of(vec![Comp { name: "c0".into(), ty: Ty::Bool, opt: Opt::Req }]));
         for names in ["Ty-L", "ID", "T1", "UUID", "Ty-L,ID,T1,UUID", "A-B-C,X9"] {
             out.push(Case { ty: stub.clone(), implied: false, others: vec![], extra: format!("imports:{names}") });
+            // ... and used only as the element of a list / inside an alternative (the name occurs as `X[]`, `X[][]`, `{ a: X }`)
+            for usage in ["of", "of-of", "alt-of", "top-of"] {
+                out.push(Case { ty: stub.clone(), implied: false, others: vec![], extra: format!("imports:{names}@{usage}") });
+            }
         }
         // value assignments next to the types: the output stays balanced
         out.push(Case { ty: stub.clone(), implied: false, others: vec![], extra: "values".into() });
@@ -496,9 +500,21 @@ impl Prop for C18 {
     }
     fn check(&self, c: &Case) -> CaseResult {
         if let Some(names) = c.extra.strip_prefix("imports:") {
+            let (names, usage) = names.split_once('@').unwrap_or((names, "direct"));
             let names: Vec<&str> = names.split(',').collect();
             let lib = format!("Lib DEFINITIONS AUTOMATIC TAGS ::= BEGIN\n{}\nEND\n", names.iter().map(|n| format!("{n} ::= INTEGER (0..7)")).collect::<Vec<_>>().join("\n"));
-            let m = format!("M DEFINITIONS AUTOMATIC TAGS ::= BEGIN\nIMPORTS {} FROM Lib;\nA ::= SEQUENCE {{ {} }}\nEND\n", names.join(", "), names.iter().enumerate().map(|(i, n)| format!("f{i} {n}")).collect::<Vec<_>>().join(", "));
+            let used = |n: &str| match usage {
+                "of" => format!("SEQUENCE OF {n}"),
+                "of-of" => format!("SET OF SEQUENCE OF {n}"),
+                "alt-of" => format!("CHOICE {{ x NULL, y SEQUENCE OF {n} }}"),
+                _ => n.to_string(),
+            };
+            let body = if usage == "top-of" {
+                names.iter().enumerate().map(|(i, n)| format!("A{i} ::= SEQUENCE OF {n}")).collect::<Vec<_>>().join("\n")
+            } else {
+                format!("A ::= SEQUENCE {{ {} }}", names.iter().enumerate().map(|(i, n)| format!("f{i} {}", used(n))).collect::<Vec<_>>().join(", "))
+            };
+            let m = format!("M DEFINITIONS AUTOMATIC TAGS ::= BEGIN\nIMPORTS {} FROM Lib;\n{body}\nEND\n", names.join(", "));
             let gen = match compile_ts(&[m.clone(), lib.clone()]) {
                 Outcome::Ok { generated, warnings } if warnings.is_empty() => generated,
                 other => return CaseResult { discs: vec![Disc::new(format!("ts|imports|rejected:{}", other.class()), format!("{}\n{m}\n{lib}", other.brief()))], nontrivial: false, outcome: other.class().into(), skipped: None },
@@ -513,7 +529,7 @@ impl Prop for C18 {
                 let imported = strip_ws_keep_strings(ns_m).contains(&format!("import{id}=Lib.{id};"));
                 if !imported {
                     let class = if n.chars().all(|ch| ch.is_ascii_uppercase() || ch == '-') { "all-upper-case" } else if n.chars().any(|ch| ch.is_ascii_digit()) { "with-digit" } else { "mixed-case" };
-                    discs.push(Disc::new(format!("ts|imports|name={class}|kind=not-imported"), format!("namespace M mentions {id} without `import {id} = Lib.{id};`\n{m}\n{lib}\n--- generated ---\n{gen}")));
+                    discs.push(Disc::new(format!("ts|imports|name={class}|use={usage}|kind=not-imported"), format!("namespace M mentions {id} without `import {id} = Lib.{id};`\n{m}\n{lib}\n--- generated ---\n{gen}")));
                 }
             }
             return CaseResult { discs, nontrivial: true, outcome: "imports".into(), skipped: None };
